@@ -179,7 +179,9 @@ def build_problem(cfg, plan, clock, ctx):
                 return array([[1.0] * dim])
         tg = tracked["g"] = Tracked("g", g, plan, clock, ctx, "g")
         tdg = tracked["dg"] = Tracked("dg", dg, {**plan, "nan": {}, "raise": {}}, clock, ctx, "dg")
-        p.add_constraint(MDOFunction(tg, "g", jac=tdg if cfg["user_jac"] else None), constraint_type="ineq")
+        # (optionally a "positive" constraint with an offset: the problem records its standard form -(g - value))
+        p.add_constraint(MDOFunction(tg, "g", jac=tdg if cfg["user_jac"] else None), constraint_type="ineq",
+                         positive=cfg.get("g_positive", False), value=cfg.get("g_value", 0.0))
     if cfg["eq"]:
         def h(x):
             return array([x[0] - 0.25 * x[-1] - 0.1])
@@ -206,6 +208,8 @@ def draw(ctx, focus="C03"):
     cfg["ineq"] = t.weighted([3, 3, 2], "ineq")
     cfg["eq"] = t.flag(0.25, "eq")
     cfg["user_jac"] = t.flag(0.75, "user_jac")
+    cfg["g_positive"] = t.flag(0.2, "constraint_positive")
+    cfg["g_value"] = t.pick([0.0, 0.0, 0.5, -0.75], "constraint_value")
     if is_doe:
         names = [a for a in doe_algos if a not in SKIP_DOE]
         cfg["algo"] = names[t.choice(len(names), "algo")]
